@@ -13,17 +13,19 @@ RULE = ("a counting shim wraps the right-hand side, every callback and every eve
         "configurations of the battery; thorough: more configurations, fault types and double faults). One case = (configuration, chunk of k); "
         "non-trivial = the fault fired; distinct by (configuration, k). Oracle: exception type + cause identity, status, recorded rows bit-equal to a "
         "prefix of the unfaulted reference run, dense output covering exactly those rows, events inside the prefix, resume reaches tf with the C03/C06 "
-        "oracles and the reference end state to tolerance, reset + rerun bit-equal to the reference")
+        "oracles and the reference end state to tolerance, reset + rerun bit-equal to the reference. Kind tolfail: tolerances that cannot be met (a component "
+        "with finite-time blow-up inside the span): FailedIntegration carrying the cause, failure status, prefix accurate (the blowing-up component in 1/w), "
+        "no rows beyond the blow-up time, dense output covering the prefix; the right-hand side is then repaired and integrate() must continue to the end")
 ASSUMPTIONS = ["faults are synchronous exceptions raised by user callables (the property's text); asynchronous interrupts between bytecodes are not injected",
                "ValueError/LinAlgError raised by the right-hand side inside an integrator step are retried once by the library: admissible outcomes are "
                "'FailedIntegration carrying the cause' or 'completed consistently'"]
 EXHAUSTIVE = {"quick": True, "thorough": True}
 FLOORS = {"quick": {"crash_points": 1500, "faults_fired": 1500, "resumes_checked": 1400, "resets_checked": 1400, "site_stage": 300, "site_event": 200,
                     "site_callback": 30, "site_end_slope": 20, "site_fd_jacobian": 30, "site_newton": 30, "keyboard_interrupts": 100,
-                    "resume_step_replay_steps": 1500, "faults_inside_a_retry_of_a_rejected_step": 100},
+                    "resume_step_replay_steps": 1500, "faults_inside_a_retry_of_a_rejected_step": 100, "tolerance_failures_raised": 20, "resumes_after_tolerance_failure": 10},
           "thorough": {"crash_points": 12000, "faults_fired": 12000, "resumes_checked": 11000, "resets_checked": 11000, "site_stage": 1100, "site_event": 2000,
                        "site_callback": 300, "site_end_slope": 200, "site_fd_jacobian": 300, "site_newton": 300, "keyboard_interrupts": 800, "double_faults": 500,
-                       "resume_step_replay_steps": 10000, "faults_inside_a_retry_of_a_rejected_step": 800}}
+                       "resume_step_replay_steps": 10000, "faults_inside_a_retry_of_a_rejected_step": 800, "tolerance_failures_raised": 60, "resumes_after_tolerance_failure": 30}}
 CASE_TIMEOUT = 1500
 CHUNK = 24
 
@@ -83,7 +85,172 @@ def gen_cases(tier, seed):
             for c0 in range(0, len(picks), CHUNK):
                 chunk = picks[c0:c0 + CHUNK]
                 cases.append(dict(cfg=cfg, ks=chunk, n_total=n, faults=["injected"] * len(chunk), double=True, cost=2 * len(chunk)))
+    # the OTHER failure the statement names: tolerances that cannot be met.  A right-hand side that no step size can resolve inside a window of the
+    # span (a term whose sign follows the low bits of t) makes the step controller give up there; the user then removes the term and resumes
+    M = util.methods()
+    rngt = rng_for(1202, seed)
+    # (pairs of order >= 10 take steps long enough to jump over the pole with an estimate built from points on both sides of it - the premise
+    #  "smooth on the scale of the step" fails there, as in C05's blow-up kind; they are left to C05)
+    tf_methods = [n for n in M if M[n]["adaptive"] and M[n]["order"] < 10 and n != "RadauIIA19"] if tier == "thorough" else ["RK45CKSolver", "DOPRI45", "HeunEulerSolver", "RK8713MSolver", "RK5Solver" if "RK5Solver" in M and M["RK5Solver"]["adaptive"] else "RK45CKSolver", "RadauIIA5", "LobattoIIIC4"]
+    for name in tf_methods:
+        for d in (1, -1):
+            for r in range((2 if M[name]["explicit"] else 1) if tier == "quick" else 5):
+                cases.append(dict(kind="tolfail", method=name, direction=d, dense=bool(rngt.random() < 0.6), t0=float(rngt.uniform(-3, 3)), L=float(rngt.uniform(2.0, 4.0)),
+                                  wfrac=float(rngt.uniform(0.25, 0.7)), rtol=float(10 ** rngt.uniform(-8, -5)), events=bool(rngt.random() < 0.4),
+                                  pseed=int(rngt.integers(1 << 30)), cost=6 if M[name]["explicit"] else 40))
     return cases
+
+
+def _tolfail(spec):
+    import desolver as de
+    M = util.methods()
+    info = M[spec["method"]]
+    d = spec["direction"]
+    base = Manufactured(2, spec["pseed"], direction=d)
+    prob = Clocked(base)
+    t0, L = spec["t0"], spec["L"]
+    tf = t0 + d * L
+    tw = t0 + d * spec["wfrac"] * L
+    state = {"rough": True, "rough_calls": 0}
+
+    w0 = 1.0 / (spec["wfrac"] * L)        # w' = d*w^2 from w0: finite-time blow-up at tw, whatever the step size
+
+    def f(t, y, **kw):
+        out = np.array(prob.rhs(t, y), copy=True)
+        with np.errstate(all="ignore"):
+            out[-1] = (d * y[-1] * y[-1]) if state["rough"] else (-d * y[-1])      # after the repair: plain decay along the direction of integration
+        if state["rough"]:
+            state["rough_calls"] += 1
+        return out
+    rec = util.Rec(sig="tolfail|%s|%d|%s|%d" % (spec["method"], d, spec["dense"], spec["pseed"] % 1009))
+    feats = {"kind": "tolerances_cannot_be_met", "method": spec["method"], "family": info["family"], "direction": d, "dense": spec["dense"]}
+    y0 = prob.y0(t0, np.dtype("float64"))
+    y0[-1] = w0
+    y0c = y0.copy()
+    rtol = spec["rtol"]
+    system = sysrun.make_system(f, y0, t0, tf, L / 40.0, info["cls"], dense=spec["dense"], rtol=rtol, atol=rtol * 1e-2)
+    evs = None
+    if spec["events"]:
+        evs = [Ev({"kind": "time", "scale": 3.0, "c": t0 + 0.15 * (tf - t0), "direction": 0, "terminal": False}, 3)]
+    seg = sysrun.call_integrate(system, events=evs, max_steps=20000)
+    rec.bump("tolerance_failure_runs")
+    if seg["raised"] is None:
+        # the controller found steps it accepts across the unresolvable term: then what it recorded must still be the solution of the smooth problem
+        # to tolerance (it is not: the term integrates to ~A*sqrt(h) noise) - judged by the accuracy clause below
+        rec.bump("tolerance_failure_runs_that_completed")
+    else:
+        rec.bump("tolerance_failures_raised")
+        rec.nontrivial = True
+        cause = seg["exc"].__cause__ if isinstance(seg["exc"], BaseException) else None
+        if isinstance(cause, sysrun.StepBudgetExceeded):
+            rec.violate("tolerance_failure_progress", "run_neither_fails_nor_ends_within_the_step_budget", feats, rows=len(system))
+            return rec.out()
+        if not isinstance(seg["exc"], de.exception_types.FailedIntegration):
+            rec.violate("failure_type", "wrong_exception_type", feats, got=seg["raised"])
+        elif cause is None or not isinstance(cause, Exception):
+            rec.violate("failure_cause", "original_cause_not_carried", feats, got=repr(cause)[:200])
+        else:
+            rec.bump("cause_" + type(cause).__name__)
+        st = system.integration_status
+        if system.success:
+            rec.violate("failure_status", "success_true_after_failure", feats, status=st)
+        if "failed" not in st.lower():
+            rec.violate("failure_status", "status_does_not_report_failure", feats, status=st)
+    t = np.asarray(system.t)
+    y = np.asarray(system.y)
+    n = len(t)
+    tolu = rtol
+    step_tol = 0.0 if info["explicit"] else tolu
+    below_resolution = bool(n > 1 and np.any(np.diff(t) == 0))
+    if below_resolution:
+        # the last steps before the blow-up are shorter than one ulp of t (the time no longer advances although the state does): the time axis has no
+        # resolution left for "monotone" / "a piece per step" to be judged; the failure itself, its cause, the status, the accuracy of what was
+        # recorded and reset() still are
+        rec.bump("prefixes_ending_below_the_resolution_of_the_time_axis")
+        keep = np.concatenate([[True], np.diff(t) != 0])
+        if np.any(d * np.diff(t[keep]) <= 0):
+            rec.violate("prefix_monotone", "time_goes_backwards_in_the_recorded_prefix", feats)
+    else:
+        sysrun.segment_invariants(rec, system, seg, tf, feats, y0_copy=y0c, require_reach=seg["raised"] is None, clock=False, step_tol=step_tol, clause_prefix="prefix_")
+    # the blowing-up component, judged in z = 1/w (z' = -d: no amplification): z(t) = 1/w0 - |t - t0|
+    with np.errstate(all="ignore"):
+        znum = 1.0 / y[:, -1].astype(np.longdouble)
+    zex = 1.0 / np.longdouble(w0) - np.abs(t.astype(np.longdouble) - t0)
+    erz = float(np.max(np.abs(znum - zex))) if np.all(np.isfinite(znum)) else float("inf")
+    unitz = 50 * rtol * (1.0 / w0) * max(1.0, float(n))
+    rec.worst("blow_up_component_error_in_1_over_w_over_unit", erz / unitz)
+    if not erz <= unitz:
+        rec.violate("prefix_accuracy", "blowing_up_component_inaccurate_in_the_recorded_prefix", feats, err_in_1_over_w=erz, unit=unitz, rows=n)
+    # (z' = -d has slope one: the numerical blow-up time differs from the exact one by the error in z, so rows may end that far beyond it - not further)
+    if n and d * (float(t[-1]) - tw) > unitz + 64 * 2.3e-16 * max(1.0, abs(tw)):
+        rec.violate("prefix_beyond_singularity", "rows_recorded_beyond_the_blow_up_time", feats, t_last=float(t[-1]), blow_up_time=tw, allowance=unitz)
+    # every recorded row is an ACCEPTED step of the smooth problem: accurate to tolerance (rows inside the window would carry the unresolved term)
+    errp = max(float(np.max(np.abs(y[k][:2].astype(np.longdouble) - base.ystar(float(t[k]))))) for k in range(n))
+    unit = 200 * rtol * (1 + float(np.max(np.abs(y[:, :2])))) * max(1.0, n ** 0.5)
+    rec.worst("prefix_error_over_unit", errp / unit)
+    if errp > unit:
+        rec.violate("prefix_accuracy", "recorded_state_inaccurate_although_tolerances_could_not_be_met", feats, err=errp, unit=unit, rows=n, raised=str(seg["raised"]))
+    if spec["dense"] and not below_resolution:
+        sysrun.dense_structure(rec, system, feats, expect_times=t if n > 1 else [], clause_prefix="prefix_")
+    for e in system.events:
+        lo, hi = sorted([float(t[0]), float(t[-1])])
+        if not (lo <= float(e.t) <= hi):
+            rec.violate("prefix_events", "event_recorded_beyond_the_accepted_prefix", feats, t_e=float(e.t), range=[lo, hi])
+    if seg["raised"] is None:
+        return rec.out()
+    if below_resolution or not info["explicit"]:
+        # (implicit methods solve for stage slopes to an absolute tolerance: with the component left at 1e13.. by the blow-up the resumed run crawls -
+        #  DESIGN 9.7 - which is not this property's subject; their failure-time clauses above and reset() below are checked)
+        rec.bump("resume_not_attempted")
+        system.reset()
+        if len(system) != 1 or not np.array_equal(np.asarray(system.y[0]), y0c) or system.nfev != 0 or system.integration_status != "Integration has not been run.":
+            rec.violate("reset_state", "reset_after_a_tolerance_failure_not_pristine", dict(feats, phase="reset"), rows=len(system), status=system.integration_status)
+        rec.sample = {"spec": spec, "rows_at_failure": n, "blow_up_time": tw, "last_time_at_failure": float(t[-1])}
+        return rec.out()
+    # ---- the user repairs the right-hand side and resumes
+    state["rough"] = False
+    seg3 = sysrun.call_integrate(system, events=evs, max_steps=20000)
+    f3 = dict(feats, phase="resume")
+    rec.bump("resumes_after_tolerance_failure")
+    if seg3["raised"]:
+        rec.violate("resume_raised", type(getattr(seg3["exc"], "__cause__", None) or seg3["exc"]).__name__, f3, err=repr(getattr(seg3["exc"], "__cause__", None))[:200])
+    else:
+        sysrun.segment_invariants(rec, system, seg3, tf, f3, y0_copy=y0c, clock=False, step_tol=step_tol, clause_prefix="resume_")
+        tr, yr = np.asarray(system.t), np.asarray(system.y)
+        frhs = lambda tt, yy, **k_: f(tt, yy)      # noqa  (the repaired right-hand side)
+        sysrun.replay_steps(rec, info, frhs, tr, yr, range(max(0, n - 1), min(n + 1, len(tr) - 1)), f3, rtol, rtol * 1e-2, base.lipschitz(), clause="resume_step_replay")
+        err = float(np.max(np.abs(yr[-1][:2].astype(np.longdouble) - base.ystar(float(tr[-1])))))
+        unit2 = 200 * rtol * (1 + float(np.max(np.abs(yr[:, :2])))) * max(1.0, len(tr) ** 0.5)
+        if err > unit2:
+            rec.violate("resume_accuracy", "end_state_after_resume_inaccurate", f3, err=err, unit=unit2)
+        # the repaired component decays from whatever value the prefix ended with: w(t) = w_n * exp(-|t - t_n|)
+        wex = float(y[-1][-1]) * np.exp(-abs(float(tr[-1]) - float(t[-1])))
+        if abs(float(yr[-1][-1]) - wex) > 1e3 * rtol * max(1.0, len(tr) - n) * (abs(float(y[-1][-1])) * 1e-3 + abs(wex)) + 1e-300:
+            rec.violate("resume_accuracy", "repaired_component_inaccurate_after_resume", f3, got=float(yr[-1][-1]), want=wex, start=float(y[-1][-1]))
+        if spec["dense"]:
+            sysrun.dense_structure(rec, system, f3, expect_times=tr, clause_prefix="resume_")
+            sol = system.sol
+            if sol is not None and sol.t_eval is not None and len(tr) > n:
+                for p in sol.y_interpolants:
+                    if float(p.t0) == float(t[-1]):
+                        fj = f(np.asarray(t[-1]), np.asarray(p.p0))
+                        if not np.allclose(np.asarray(p.m0), fj, rtol=1e-12, atol=1e-13):
+                            rec.violate("resume_slope_join", "first_piece_after_resume_starts_with_a_stale_slope", f3, err=float(np.max(np.abs(np.asarray(p.m0) - fj))))
+                        break
+    system.reset()
+    fr = dict(feats, phase="reset")
+    if len(system) != 1 or not np.array_equal(np.asarray(system.y[0]), y0c) or float(system.t[0]) != t0:
+        rec.violate("reset_state", "reset_did_not_restore_initial_row", fr, rows=len(system))
+    if len(system.events) != 0:
+        rec.violate("reset_state", "events_survive_reset", fr, n=len(system.events))
+    if system.nfev != 0:
+        rec.violate("reset_state", "nfev_not_zero_after_reset", fr, nfev=system.nfev)
+    if system.sol is not None and system.sol.t_eval is not None and len(system.sol.y_interpolants) > 0:
+        rec.violate("reset_state", "dense_output_survives_reset", fr, pieces=len(system.sol.y_interpolants))
+    if system.integration_status != "Integration has not been run.":
+        rec.violate("reset_state", "status_not_pristine_after_reset", fr, status=system.integration_status)
+    rec.sample = {"spec": spec, "rows_at_failure": n, "window_start": tw, "last_time_at_failure": float(t[-1]), "calls_into_the_unresolvable_term": state["rough_calls"]}
+    return rec.out()
 
 
 # ---------------------------------------------------------------------------------------------
@@ -209,6 +376,8 @@ def _snapshot(system):
 
 
 def run_case(spec):
+    if spec.get("kind") == "tolfail":
+        return _tolfail(spec)
     cfg = spec["cfg"]
     rec = util.Rec(sig="%s|%s|%d|%s|%d-%d|%s" % (cfg["method"], cfg["rich"], cfg["direction"], cfg["dense"], spec["ks"][0], spec["ks"][-1], spec["double"]))
     # ---- reference (unfaulted) run, with call-site labels
